@@ -1,6 +1,7 @@
 package main
 
 import (
+	"go/token"
 	"fmt"
 	"go/types"
 	"os"
@@ -332,6 +333,13 @@ func (x *fnCtx) startAtHeader(st *State, fr *Frame, h *ssa.BasicBlock, ord int) 
 			fr.names[phi.Comment] = nameBind{v: v}
 		}
 	}
+	// $i for an index loop `for i := c; ...; i++`: the index of the last completed iteration
+	// (i - 1), so that the same invariant text fits the `for i := range xs` form of the loop
+	if ip := inductionPhi(h); ip != nil {
+		if v, ok := fr.regs[ip]; ok && len(v.L) == 1 {
+			fr.names["rangeindex"] = nameBind{v: &Val{T: ip.Type(), L: []*Term{Sub(v.L[0], IntLit(1))}}}
+		}
+	}
 	// ghost bindings made once outside all loops are visible under their stable symbol
 	for _, td := range x.con.Traces {
 		if td.As != "" && x.bindOutsideLoops(td) {
@@ -473,6 +481,12 @@ func (x *fnCtx) arriveAtHeader(st *State, fr *Frame, h, pred *ssa.BasicBlock, or
 		v := x.getVal(st, fr, phi.Edges[idx])
 		if phi.Comment != "" {
 			names[phi.Comment] = nameBind{v: retype(v, phi.Type())}
+		}
+	}
+	if ip := inductionPhi(h); ip != nil {
+		v := x.getVal(st, fr, ip.Edges[idx])
+		if len(v.L) == 1 {
+			names["rangeindex"] = nameBind{v: &Val{T: ip.Type(), L: []*Term{Sub(v.L[0], IntLit(1))}}}
 		}
 	}
 	env := &specEnv{x: x, st: st, heap: st.heap, old: fr.oldHeap, names: names, fr: fr}
@@ -934,4 +948,62 @@ func mentionsHeapSym(t *Term) bool {
 		return false
 	}
 	return rec(t)
+}
+
+// inductionPhi: the counter of a canonical index loop at header h — an integer phi that every
+// back edge increments by one — when the header has no range index of its own. With several
+// candidates the one tested by the header's condition is taken.
+func inductionPhi(h *ssa.BasicBlock) *ssa.Phi {
+	var cands []*ssa.Phi
+	for _, in := range h.Instrs {
+		phi, ok := in.(*ssa.Phi)
+		if !ok {
+			break
+		}
+		if phi.Comment == "rangeindex" {
+			return nil
+		}
+		if b, ok := phi.Type().Underlying().(*types.Basic); !ok || b.Info()&types.IsInteger == 0 {
+			continue
+		}
+		okAll, back, fwd := true, 0, 0
+		for i, pred := range h.Preds {
+			if h.Dominates(pred) {
+				back++
+				bo, ok := phi.Edges[i].(*ssa.BinOp)
+				if !ok || bo.Op != token.ADD {
+					okAll = false
+					break
+				}
+				one := func(v ssa.Value) bool {
+					c, ok := v.(*ssa.Const)
+					return ok && c.Value != nil && c.Value.String() == "1"
+				}
+				if !((bo.X == ssa.Value(phi) && one(bo.Y)) || (bo.Y == ssa.Value(phi) && one(bo.X))) {
+					okAll = false
+					break
+				}
+			} else {
+				fwd++
+			}
+		}
+		if okAll && back > 0 && fwd > 0 {
+			cands = append(cands, phi)
+		}
+	}
+	if len(cands) == 1 {
+		return cands[0]
+	}
+	if len(cands) > 1 && len(h.Instrs) > 0 {
+		if ifi, ok := h.Instrs[len(h.Instrs)-1].(*ssa.If); ok {
+			if bo, ok := ifi.Cond.(*ssa.BinOp); ok {
+				for _, c := range cands {
+					if bo.X == ssa.Value(c) || bo.Y == ssa.Value(c) {
+						return c
+					}
+				}
+			}
+		}
+	}
+	return nil
 }
